@@ -715,6 +715,53 @@ func (c *cliFront) plan(h *heapRun, o *obj, st Step) (*cliCall, string) {
 			}
 			return false
 		}}, ""
+	case "Describe":
+		// `goalign stats length | nseq | taxa`
+		if o.sb.NbSequences() == 0 {
+			return nil, "empty"
+		}
+		what := astrs(a, "what")
+		isBag := o.al == nil
+		return &cliCall{argv: append([]string{"stats", what}, un...), query: true, ret: func(stdout, stderr string, ret map[string]interface{}) bool {
+			lines := strings.Split(strings.TrimRight(stdout, "\n"), "\n")
+			switch what {
+			case "nseq":
+				v, err := strconv.Atoi(strings.TrimSpace(lines[0]))
+				ret["nb"] = v
+				return err == nil
+			case "taxa":
+				names := [][]int{}
+				for k, l := range lines {
+					f := strings.SplitN(l, "\t", 2)
+					if len(f) != 2 || f[0] != strconv.Itoa(k) {
+						return false
+					}
+					names = append(names, s2i(f[1]))
+				}
+				ret["names"] = names
+				return true
+			}
+			if !isBag {
+				v, err := strconv.Atoi(strings.TrimSpace(lines[0]))
+				ret["len"] = v
+				return err == nil
+			}
+			names, lens := [][]int{}, []int{}
+			for _, l := range lines {
+				// (the command prints: name, blank, TAB, blank, length)
+				i := strings.LastIndex(l, " \t ")
+				if i < 0 {
+					return false
+				}
+				v, err := strconv.Atoi(l[i+3:])
+				if err != nil {
+					return false
+				}
+				names, lens = append(names, s2i(l[:i])), append(lens, v)
+			}
+			ret["names"], ret["lens"] = names, lens
+			return true
+		}}, ""
 	case "EntropyAll":
 		// `goalign compute entropy [-g] [-a]`: a table "alignment <TAB> site <TAB> entropy" (three decimals), or one average
 		if !needsAlign() || o.sb.NbSequences() == 0 {
